@@ -159,6 +159,31 @@ pub fn generate(r: &mut Runner) {
         c.ops.extend(super::c04::history(r, name, cl, 0.0, scale));
         r.run(c, hl > 0);
     }
+    // big windows, clone taken DURING WARM-UP (a clone that copies only a 'filled prefix' of a big buffer, or
+    // re-derives state from it, is only wrong there), continuation long enough to wrap back to every slot
+    let rounds = if r.tier == Tier::Quick { 1 } else { 10 };
+    for _ in 0..rounds {
+        for name in ind::NAMES {
+            let (mut ps, ms) = crate::diff::params_for(&mut r.rng, name, 64);
+            if ps.is_empty() {
+                continue;
+            }
+            let big = r.rng.range(513, 1100);
+            for p in ps.iter_mut() {
+                *p = big;
+            }
+            for hl in [2usize, 3, 5, big / 2, big - 1] {
+                let scale = *r.rng.pick(&[1.0, 100.0, 1e6]);
+                let mut c = Case::new("C05", "clone-in-warmup-big-window", name, &ps, &ms);
+                // no reset() in this stage: a reset before the ring wraps would hide what the clone lost
+                c.ops = super::c04::history(r, name, hl, 0.0, scale).into_iter().filter(|o| *o != Op::Reset).collect();
+                c.ops.push(Op::Mark);
+                let cl = big + 3 + r.rng.below(10);
+                c.ops.extend(super::c04::history(r, name, cl, 0.0, scale).into_iter().filter(|o| *o != Op::Reset));
+                r.run(c, true);
+            }
+        }
+    }
     let tcases = if r.tier == Tier::Quick { 22 } else { 220 };
     for i in 0..tcases {
         let name = ind::NAMES[i % ind::NAMES.len()];
@@ -169,4 +194,4 @@ pub fn generate(r: &mut Runner) {
     }
 }
 
-pub const RULE: &str = "per case: an instance A is fed a history while an unrelated instance of the same type is fed perturbed data between every two calls; an isolated twin replays the same history (outputs must be bit-identical); A is cloned, the clone is fed a *different* stream, A is cloned again and A, the second clone and the isolated twin are fed the continuation alternately (all bit-identical). kind threads16: 16 distinct instances run concurrently on 16 threads vs the same 16 runs sequentially. Non-trivial = non-empty history before the clone point. NaN compares equal to NaN.";
+pub const RULE: &str = "per case: an instance A is fed a history while an unrelated instance of the same type is fed perturbed data between every two calls; an isolated twin replays the same history (outputs must be bit-identical); A is cloned, the clone is fed a *different* stream, A is cloned again and A, the second clone and the isolated twin are fed the continuation alternately (all bit-identical). kind clone-in-warmup-big-window: periods 513..1100, clone after 2, 3, 5, period/2 and period-1 inputs, continuation longer than the period. kind threads16: 16 distinct instances run concurrently on 16 threads vs the same 16 runs sequentially. Non-trivial = non-empty history before the clone point. NaN compares equal to NaN.";
